@@ -385,34 +385,29 @@ theorem revokeProg_eq_head (s : St) (k : Nat) (byCert : Bool) (o1 o2 : List Nat)
 
 /-! ### CRL numbers -/
 
-/-- **CRL numbers increase.**  In every history without interruption (any requests, any duplicate-free orders),
+/-- **CRL numbers increase — also across interruptions.**  In EVERY history (any requests, any duplicate-free
+orders of CRL writes, every request possibly cut by a storage failure or a crash after any number of its writes),
 every CRL written for an issuer — complete or delta — carries a strictly larger CRL number than every CRL written
-for that issuer before (`log` is newest first). -/
-theorem crl_number_increasing (h : List Run) (hh : ∀ r ∈ h, r.cut = none ∧ r.o1.Nodup ∧ r.o2.Nodup) :
+for that issuer before (`log` is newest first).  Since the repair of finding F17 a rebuild persists an issuer's
+advanced number BEFORE it writes the CRL signed with the old one, so an interruption skips a number and never
+reuses one. -/
+theorem crl_number_increasing (h : List Run) (hh : ∀ r ∈ h, r.o1.Nodup ∧ r.o2.Nodup) :
     (run init h).log.Pairwise (fun newer older => newer.issuer = older.issuer → older.number < newer.number) :=
   (J_run h init hh J_init).inc
 
-/-- the CRL served for an issuer is always the newest one written for it, so served numbers increase as well:
-every logged CRL of a live issuer is numbered below the issuer's persisted counter -/
-theorem crl_number_below_counter (h : List Run) (hh : ∀ r ∈ h, r.cut = none ∧ r.o1.Nodup ∧ r.o2.Nodup) :
+/-- every CRL ever written for a live issuer is numbered below the issuer's persisted counter — in every history,
+interrupted or not; hence the served CRL (the newest one written) carries the largest number handed out so far -/
+theorem crl_number_below_counter (h : List Run) (hh : ∀ r ∈ h, r.o1.Nodup ∧ r.o2.Nodup) :
     ∀ e ∈ (run init h).log, e.issuer ∈ (run init h).issuers → e.number < counter (run init h) e.issuer :=
   (J_run h init hh J_init).bound
 
 example : ((run init [⟨.addIssuer, [1], [1], none⟩, ⟨.addIssuer, [2, 1], [1, 2], none⟩, ⟨.rotate, [1, 2], [2, 1], none⟩]).log.map
     fun e => (e.issuer, e.number)) = [(1, 6), (2, 4), (2, 3), (1, 5), (2, 2), (1, 4), (1, 3), (2, 1), (1, 2), (1, 1)] := by decide
 
-/-- FULL statement including interrupted requests (false on the current tree, finding F17) -/
-def crl_number_increasing_full : Prop :=
-  ∀ h : List Run, (∀ r ∈ h, r.o1.Nodup ∧ r.o2.Nodup) →
-    (run init h).log.Pairwise (fun newer older => newer.issuer = older.issuer → older.number < newer.number)
-
-/-- **F17.**  A rotate interrupted after the CRL was written and before the counters were persisted (`cut = 1`),
-then another rotate: two CRLs of issuer 1 carry the number 3. -/
-theorem crl_number_reuse_cex : ¬ crl_number_increasing_full := by
-  intro h
-  have := h [⟨.addIssuer, [1], [1], none⟩, ⟨.rotate, [1], [1], some 1⟩, ⟨.rotate, [1], [1], none⟩]
-    (by intro r hr; simp only [List.mem_cons, List.not_mem_nil, or_false] at hr; rcases hr with rfl | rfl | rfl <;> decide)
-  revert this
+/-- the former F17 witness: a rotate cut between the counter write and the CRL write (number 3 is skipped), and one
+cut right after the CRL write; the next rotate continues with fresh numbers -/
+example : ((run init [⟨.addIssuer, [1], [1], none⟩, ⟨.rotate, [1], [1], some 1⟩, ⟨.rotate, [1], [1], some 2⟩,
+      ⟨.rotate, [1], [1], none⟩]).log.map fun e => (e.issuer, e.number)) = [(1, 6), (1, 5), (1, 4), (1, 2), (1, 1)] := by
   decide
 
 end C16
